@@ -145,12 +145,12 @@ def lex(src):
         raise
 
 
-def check(src, must_return):
+def check(src, must_return, given_raw=None):
     """returns (violations [(rule, signature, message)], nontrivial, labels)"""
     v = []
     labels = []
     try:
-        raw = lex(src)
+        raw = lex(src) if given_raw is None else given_raw
     except PanicInExtension as e:
         if must_return:
             msg = "".join(c if not c.isdigit() else "#" for c in str(e))[:90]
@@ -542,7 +542,32 @@ def account(src, must_return, origin):
     return bad
 
 
+def history_check(p, q):
+    """lex p, then q (temporary objects of equal length), an unrelated call, then q again; returns violations on q"""
+    try:
+        lex("".join([p[:1], p[1:]]))
+        r1 = lex("".join([q[:1], q[1:]]))
+        lex(q + " ")
+        r2 = lex("".join([q[:1], q[1:]]))
+    except MemoryError:
+        raise
+    except BaseException:
+        return None
+    bad = [x for x in check(q, False, given_raw=r1)[0] if known(x[1]) is None]
+    if r1 != r2:
+        bad.append(("history", "history:payload-depends-on-earlier-calls", "the same source text got two different payloads in one process (first right after a same-length neighbour, then after an unrelated call)"))
+    return bad
+
+
 def write_replay(src, rule, sig, msg, origin):
+    if origin == "call-history" and "\x00" in src:
+        d = os.path.join(ROOT, "replays", "found")
+        os.makedirs(d, exist_ok=True)
+        h = hashlib.sha1((sig + "|" + src).encode("utf-8", "surrogatepass")).hexdigest()[:16]
+        p = os.path.join(d, f"C20-{h}.json")
+        json.dump({"property": "C20", "rule": rule, "signature": sig, "message": msg, "found_by": origin, "seed": seed,
+                   "case": {"kind": "history", "texts": src.split("\x00"), "bytes_hex": "", "n": 0, "gen": origin}}, open(p, "w", encoding="utf-8"), ensure_ascii=True, indent=1)
+        return p
     d = os.path.join(ROOT, "replays", "found")
     os.makedirs(d, exist_ok=True)
     h = hashlib.sha1((sig + "|" + src).encode("utf-8", "surrogatepass")).hexdigest()[:16]
@@ -583,7 +608,10 @@ def main():
         r = json.load(open(replay, encoding="utf-8"))
         src = r["case"]["texts"][0]
         must = bool(r["case"].get("n", 0))
-        bad = account(src, must, "replay")
+        if r["case"].get("kind") == "history" and len(r["case"]["texts"]) == 2:
+            bad = history_check(r["case"]["texts"][0], r["case"]["texts"][1]) or []
+        else:
+            bad = account(src, must, "replay")
         for f in KF:
             if f["id"] in kf_hits:
                 print(f"KNOWN-FINDING: property=C20 {f['id']} {f['what']}")
@@ -637,6 +665,25 @@ def main():
         for rule, sig, msg in account(p, False, "harness-soup"):
             violations.append((p, False, rule, sig, msg, "harness-soup"))
 
+    # 2b. call histories: the payload returned for a string must describe *that* string, whatever was lexed before it.
+    # A source and a same-length neighbour (one character inside a quoted literal changed) are passed as temporary
+    # objects, so that the second one usually reuses the memory of the first; the contract is checked on what the
+    # extension returned for the second, and the same text must get the same payload again after an unrelated call.
+    hist = 0
+    for p in (programs + soups)[: (1500 if tier == "quick" else 20000)]:
+        k = next((i for i in range(1, len(p) - 1) if p[i].isascii() and p[i].isalnum() and p[i - 1] in "'\"" and p[i + 1:i + 2].isascii()), None)
+        if k is None:
+            continue
+        q = p[:k] + ("Z" if p[k] != "Z" else "Y") + p[k + 1:]
+        bad = history_check(p, q)
+        if bad is None:
+            continue
+        hist += 1
+        stats["evaluations"] += 1
+        for rule, sig, msg in bad:
+            violations.append((p + "\x00" + q, False, rule, sig, msg, "call-history"))
+    stats["labels"]["origin:call-history"] = hist
+
     # 3. Hypothesis over arbitrary text: the contract must hold whenever a result is returned
     n_hyp = 3000 if tier == "quick" else 60000
     hyp_fail = []
@@ -669,7 +716,7 @@ def main():
         if sig in seen:
             continue
         seen.add(sig)
-        if src and not must:
+        if src and not must and origin != "call-history":
             # (well-formed programs are not shrunk: a shrunk text would leave the grammar)
             small = shrink(src, must, rule)
             again = [x for x in check(small, must)[0] if x[0] == rule and known(x[1]) is None]
